@@ -113,7 +113,7 @@ def gen_bg_style(rng, adversarial, p_image=0.7):
     layer = real.gen_layer(rng, False)
     image = (Q(rng.choice([2, 4, 8, 16, 3, 10])), Q(rng.choice([2, 4, 8, 16, 5]))) if rng.random() < p_image else None
     return {'image': image, 'res': Q(rng.choice([1, 1, 2, 4, 3])) / rng.choice([1, 1, 2]),
-            'colored': rng.random() < 0.15, 'hidden': rng.random() < 0.06,
+            'colored': rng.random() < 0.15, 'hidden': rng.random() < 0.1, 'visibility': rng.choice(['hidden', 'collapse']),
             'size': layer['size'], 'clip': layer['clip'], 'repeat': layer['repeat'], 'origin': layer['origin'],
             'position': layer['position'], 'fixed': layer['fixed']}
 
@@ -130,7 +130,8 @@ def real_style(s):
     image = None if s['image'] is None else ResolutionStub(*s['image'])
     style['background_image'] = [('none', None) if image is None else ('stub', image)]
     style['background_color'] = parse_color('red' if s['colored'] else 'transparent')
-    style['visibility'] = 'hidden' if s['hidden'] else 'visible'
+    # `hidden` of the wire = `style['visibility'] != 'visible'` (repair af29a5d): hidden or collapse
+    style['visibility'] = s.get('visibility', 'hidden') if s['hidden'] else 'visible'
     style['image_resolution'] = s['res']
     style['background_size'] = [real.bg_size_real(s['size'])]
     style['background_clip'] = [s['clip']]
@@ -389,7 +390,8 @@ def gen_marker_document(rng):
     return {'items': rng.choice([1, 2, 3]), 'pw': rng.choice([2, 4, 8, 16]), 'ph': rng.choice([2, 4, 8]),
             'color': rng.randrange(2), 'res': rng.choice([Fraction(1), Fraction(2), Fraction(1, 2), Fraction(4)]),
             'position': rng.choice(['inside', 'outside']), 'orientation': rng.choice([None, None, 'none', '90deg', '180deg']),
-            'img': rng.choice([None, None, 'same', 'other-orientation'])}
+            'img': rng.choice([None, None, 'same', 'other-orientation']),
+            'orientation_on': rng.choice(['list', 'list', 'marker'])}
 
 
 def marker_document_html(doc):
@@ -402,12 +404,13 @@ def marker_document_html(doc):
     elif doc['img'] == 'other-orientation':
         extra = f'<img src="{uri}" style="vertical-align:top;image-orientation:270deg flip">'
     items = ''.join('<li>x</li>' for _ in range(doc['items']))
-    # image-orientation is not an inherited property in WeasyPrint (css-images-3 says it is: reported), so it is
-    # set on the ::marker pseudo-element itself; image-resolution is inherited from the <ul>
+    # image-orientation is inherited (repair 8f3706e): it is set on the <ul>, or on the ::marker pseudo-element itself
+    on_list = doc.get('orientation_on', 'list') == 'list'
     return ('<style>@page{size:400px 800px;margin:0}body{margin:0;font-size:20px;line-height:20px}'
-            f'li::marker{{{orientation}}}</style>'
+            f'li::marker{{{"" if on_list else orientation}}}</style>'
             f'<ul style="margin:0;padding:0 0 0 64px;width:200px;list-style-image:url({uri});'
-            f'list-style-position:{doc["position"]};image-resolution:{float(doc["res"]):g}dppx">{items}</ul>'
+            f'list-style-position:{doc["position"]};image-resolution:{float(doc["res"]):g}dppx;'
+            f'{orientation if on_list else ""}">{items}</ul>'
             f'<div>{extra}</div>')
 
 
@@ -477,18 +480,40 @@ def case_marker_document(rng, adversarial=False):
 
 
 
-def finding_orientation_not_inherited():
-    """Known finding: `image-orientation` is missing from INHERITED, so an <img> under an element with
-    `image-orientation: 90deg` is not rotated (8x4 stays 8x4).  True while it still fails."""
+def regression_orientation_not_inherited():
+    """Fixed finding image-orientation-not-inherited (8f3706e): `image-orientation` was missing from INHERITED, so
+    an <img> under an element with `image-orientation: 90deg` was not rotated (8x4 stayed 8x4).  -> regression
+    cases: the former replay document rendered (an <img>, and a list marker, below an element carrying the
+    property), the used size through the `docimg` line of a 4x8 image (the quarter turn exchanges the sides)."""
     from harness import c13_docs
     from weasyprint.formatting_structure import boxes
-    html = ('<style>@page{size:100px;margin:0}body{margin:0}</style><div style="image-orientation:90deg">'
-            f'<img src="{c13_docs.png_uri(8, 4, 0)}" style="vertical-align:top"></div>')
-    document = docs.render(html)
-    for box in document.pages[0]._page_box.descendants():
-        if isinstance(box, boxes.ReplacedBox):
-            return (box.width, box.height) != (4, 8)
-    return True
+    uri = c13_docs.png_uri(8, 4, 0)
+    documents = (
+        ('<style>@page{size:100px;margin:0}body{margin:0}</style><div style="image-orientation:90deg;width:50px">'
+         f'<img src="{uri}" style="vertical-align:top"></div>', 50),
+        ('<style>@page{size:100px;margin:0}body{margin:0;font-size:20px;line-height:20px}</style>'
+         f'<ul style="margin:0;padding:0 0 0 40px;width:50px;image-orientation:90deg;list-style-position:inside;'
+         f'list-style-image:url({uri})"><li>x</li></ul>', 50))
+    cases = []
+    for html, cbw in documents:
+        state = {}
+
+        def run(html=html):
+            document = docs.render(html)
+            for box in document.pages[0]._page_box.descendants():
+                if isinstance(box, boxes.ReplacedBox):
+                    state['at'] = (Fraction(box.position_x), Fraction(box.position_y))
+                    return ok(' '.join(fmt(Fraction(getattr(box, n))) for n in real.RBOX_OUT) +
+                              f' at {fmt(Fraction(box.position_x))} {fmt(Fraction(box.position_y))}')
+            return 'no-image-box'
+        out = docs.outcome(run)
+        x, y = state.get('at', (0, 0))
+        css = ['auto'] * 4 + ['none', 'none'] + [['px', 0]] * 4 + [['px', 0], ['px', 0], 0, 0]
+        line = sx.line('docimg', False, css, [cbw, False], 'auto', x, y, 4, 8, 1, Fraction(1, 2))
+        cases.append((line, out, {'fn': 'docimg-orientation-inherited', 'html': html,
+                                  'regression': 'image-orientation-not-inherited'}, True,
+                      ['regression:image-orientation-not-inherited']))
+    return cases
 
 
 def judge_marker_document(doc):
